@@ -30,8 +30,9 @@ CHECKS = {
             dict(pkg="table", run="^TestC03JoinLeave$",
                  quick=dict(shards=6, checks=3000, timeout=240),
                  thorough=dict(shards=16, checks=30000, timeout=1500)),
+            dict(pkg="table", run="^FuzzC03$", kind="fuzz", seconds=120),
         ],
-        rule="(4) join-then-leave races (c03j, CT/cash tables): the last reserved player sits in - which completes the engine's auto-join group, whose completion callback walks the player list on a goroutine of its own - and the caller issues a departure (PlayersLeave one / two players, UpdateTablePlayers) back to back after a drawn spin of 0-2000 loop iterations; the process must survive (a crash inside pokertable is reported as a violation) and table and seat manager must agree once quiet; (1) stateful sequences of <=30 membership operations (create-with-players, reserve fixed/random/taken/out-of-range/full, re-buy, join, leave one/several/unknown/mixed/duplicate, batch update valid/invalid) on one real TableEngine, seat counts 2..10; (2) the same predicate at every quiescent point of real table histories (after hands); oracle = three-way agreement seat map / player list / seat manager + reference seat model + error => table and seat manager byte-identical; non-trivial = a failing operation after a successful one, or re-use of a vacated seat; distinct = distinct op-class traces",
+        rule="(4) join-then-leave races (c03j, CT/cash tables): the last reserved player sits in - which completes the engine's auto-join group, whose completion callback walks the player list on a goroutine of its own - and the caller issues a departure (PlayersLeave one / two players, UpdateTablePlayers) back to back after a drawn spin of 0-2000 loop iterations; the process must survive (a crash inside pokertable is reported as a violation) and table and seat manager must agree once quiet; (1) stateful sequences of <=30 membership operations (create-with-players, reserve fixed/random/taken/out-of-range/full, re-buy, join, leave one/several/unknown/mixed/duplicate, batch update valid/invalid) on one real TableEngine, seat counts 2..10; (2) the same predicate at every quiescent point of real table histories (after hands); oracle = three-way agreement seat map / player list / seat manager + reference seat model + error => table and seat manager byte-identical; non-trivial = a failing operation after a successful one, or re-use of a vacated seat; distinct = distinct op-class traces; (5, thorough tier only) native coverage-guided fuzzing of the operation sequences of (1): fuzz bytes are decoded into the same bounded draws, same oracle inside the target, executions counted under counters.fuzz_execs",
         mandatory=dict(quick=["err_full", "err_taken", "err_dup_batch", "err_unknown_leave", "err_mixed_leave", "err_range", "err_batch_overflow", "reuse_vacated", "random_seat", "after_hands", "N2", "N10"]),
         assumptions=ASSUME_COMMON + ["the engine may seat a reserved player in by itself (auto-join); the model only demands seated-in for players whose join succeeded"],
     ),
